@@ -72,8 +72,32 @@ def impl_trace(make, feed, items):
     return out
 
 
+_FORM = [0]
+
+
+def as_value(x, form):
+    """the observation as a caller may hand it over: Python float, Python int /
+    numpy integer / bool when the value is integral, a 1-element list / array / 1x1 array — equal values, equal statistics"""
+    # (np.float32 observations are NOT used: under numpy 2's promotion rules ADWIN then computes parts of its statistics in single
+    #  precision -- variance() = -6.5e-6 on the window [16.0] -- which is rounding at the precision the caller chose, not a
+    #  question of which inputs the statistics describe)
+    if form == 2 and x == int(x) and abs(x) < 2 ** 53:
+        return int(x)
+    if form == 3 and x == int(x) and abs(x) < 2 ** 31:
+        return np.int32(int(x))
+    if form == 4 and x in (0.0, 1.0):
+        return bool(x)
+    if form == 5:
+        return [x]
+    if form == 6:
+        return np.array([[x]], dtype=np.float64)
+    return x
+
+
 def adwin_trace(mod, cfg, xs):
-    return impl_trace(lambda: mod.ADWIN(**cfg), lambda d, x: d.update(x), xs)
+    _FORM[0] += 1
+    form = _FORM[0] % 11        # 0, 7..10: plain Python floats
+    return impl_trace(lambda: mod.ADWIN(**cfg), lambda d, x: d.update(as_value(x, form)), xs)
 
 
 # ------------------------------------------------------------------ property clauses on an implementation trace
